@@ -16,7 +16,8 @@ pub fn check(r: &RunResult, rep: &mut Report) {
 	let sendseq = common::tx_send_seq(w);
 	// ---- polling bound: per object and phase, per attempt, at most 20 polls ----
 	for ca in w.cas.iter() {
-		let mut counts: std::collections::BTreeMap<(String, String, usize), u64> = Default::default();
+		let mut counts: std::collections::BTreeMap<(String, String, usize), u64> =
+			Default::default();
 		for p in ca.posts.iter() {
 			if !["authzPoll", "orderPollReady", "orderPollValid"].contains(&p.class.as_str()) {
 				continue;
@@ -27,7 +28,9 @@ pub fn check(r: &RunResult, rep: &mut Report) {
 			}
 			let seq = sendseq.get(&p.tx).copied().unwrap_or(0);
 			let att = common::attempt_at(&atts, seq, None).unwrap_or(usize::MAX);
-			*counts.entry((p.class.clone(), p.url.clone(), att)).or_insert(0) += 1;
+			*counts
+				.entry((p.class.clone(), p.url.clone(), att))
+				.or_insert(0) += 1;
 		}
 		for ((class, url, _), n) in counts.iter() {
 			rep.probe(&format!("c08.max_polls.{}", class), 0);
@@ -36,7 +39,13 @@ pub fn check(r: &RunResult, rep: &mut Report) {
 				rep.nontrivial = true;
 			}
 			if *n > 20 {
-				rep.add(Violation::new("C08", "poll_bound_exceeded", class, "", format!("{} polls of {} in one attempt", n, url)));
+				rep.add(Violation::new(
+					"C08",
+					"poll_bound_exceeded",
+					class,
+					"",
+					format!("{} polls of {} in one attempt", n, url),
+				));
 			}
 		}
 	}
@@ -61,9 +70,18 @@ pub fn check(r: &RunResult, rep: &mut Report) {
 	rep.nontrivial = true;
 	let recoverable = has_problem_doc && RECOVERABLE.contains(&typ.as_str());
 	let p0 = class_posts[first];
-	let scripted: Vec<_> = class_posts[first..].iter().take_while(|p| p.scripted.is_some()).collect();
+	let scripted: Vec<_> = class_posts[first..]
+		.iter()
+		.take_while(|p| p.scripted.is_some())
+		.collect();
 	let phase = f.class.clone();
-	let cause = if !has_problem_doc { "no_problem_document".to_string() } else if typ.is_empty() { "absent_type".to_string() } else { typ.clone() };
+	let cause = if !has_problem_doc {
+		"no_problem_document".to_string()
+	} else if typ.is_empty() {
+		"absent_type".to_string()
+	} else {
+		typ.clone()
+	};
 	// the attempt the affected request belongs to
 	let seq0 = sendseq.get(&p0.tx).copied().unwrap_or(0);
 	let att = match common::attempt_at(&atts, seq0, None) {
@@ -96,53 +114,131 @@ pub fn check(r: &RunResult, rep: &mut Report) {
 			let prev = same[k - 1];
 			let cur = same[k];
 			if cur.nonce != prev.reply_nonce {
-				rep.add(Violation::new("C08", "retry_not_newest_nonce", &cause, &phase, format!("retransmission {} carries nonce {:?}, the previous reply attached {:?}", k + 1, cur.nonce, prev.reply_nonce)));
+				rep.add(Violation::new(
+					"C08",
+					"retry_not_newest_nonce",
+					&cause,
+					&phase,
+					format!(
+						"retransmission {} carries nonce {:?}, the previous reply attached {:?}",
+						k + 1,
+						cur.nonce,
+						prev.reply_nonce
+					),
+				));
 			}
 			if cur.url != p0.url || cur.payload_hash != p0.payload_hash {
-				rep.add(Violation::new("C08", "retry_content_changed", &cause, &phase, String::new()));
+				rep.add(Violation::new(
+					"C08",
+					"retry_content_changed",
+					&cause,
+					&phase,
+					String::new(),
+				));
 			}
 		}
 		if got > 10 || scripted.len() > 10 {
-			rep.add(Violation::new("C08", "more_than_10_transmissions", &cause, &phase, format!("{}", got)));
+			rep.add(Violation::new(
+				"C08",
+				"more_than_10_transmissions",
+				&cause,
+				&phase,
+				format!("{}", got),
+			));
 		}
 		let should_succeed = run < 10;
 		if should_succeed {
 			rep.probe("c08.recovered", 1);
 			if att.ok == Some(false) {
-				rep.add(Violation::new("C08", "recoverable_run_not_recovered", &cause, &phase, format!("error run of {} (< 10) but the attempt failed", run)));
+				rep.add(Violation::new(
+					"C08",
+					"recoverable_run_not_recovered",
+					&cause,
+					&phase,
+					format!("error run of {} (< 10) but the attempt failed", run),
+				));
 			}
 		} else {
 			rep.probe("c08.gave_up_after_10", 1);
 			if att.ok == Some(true) {
-				rep.add(Violation::new("C08", "success_after_exhausted_retries", &cause, &phase, String::new()));
+				rep.add(Violation::new(
+					"C08",
+					"success_after_exhausted_retries",
+					&cause,
+					&phase,
+					String::new(),
+				));
 			}
 		}
 	} else {
 		rep.probe("c08.unrecoverable_runs", 1);
-		let adne_flow = typ == "accountDoesNotExist" && (f.class == "newOrder" || f.class == "account" || f.class == "keyChange");
+		let adne_flow = typ == "accountDoesNotExist"
+			&& (f.class == "newOrder" || f.class == "account" || f.class == "keyChange");
 		if adne_flow {
 			// C11's re-registration flow: a newAccount, then exactly one more transmission
 			rep.probe("c08.adne_reregistration", 1);
 			if same.len() > 2 {
-				rep.add(Violation::new("C08", "resent_after_unrecoverable", &cause, &phase, format!("{} transmissions after accountDoesNotExist", same.len())));
+				rep.add(Violation::new(
+					"C08",
+					"resent_after_unrecoverable",
+					&cause,
+					&phase,
+					format!("{} transmissions after accountDoesNotExist", same.len()),
+				));
 			}
 			let should_succeed = run < 2;
 			if !should_succeed && att.ok == Some(true) {
-				rep.add(Violation::new("C08", "error_taken_for_success", &cause, &phase, String::new()));
+				rep.add(Violation::new(
+					"C08",
+					"error_taken_for_success",
+					&cause,
+					&phase,
+					String::new(),
+				));
 			}
 			return;
 		}
 		if same.len() != 1 {
-			rep.add(Violation::new("C08", "resent_after_unrecoverable", &cause, &phase, format!("{} transmissions of a request answered with an unrecoverable error", same.len())));
+			rep.add(Violation::new(
+				"C08",
+				"resent_after_unrecoverable",
+				&cause,
+				&phase,
+				format!(
+					"{} transmissions of a request answered with an unrecoverable error",
+					same.len()
+				),
+			));
 		}
 		if att.ok == Some(true) {
-			rep.add(Violation::new("C08", "error_taken_for_success", &cause, &phase, String::new()));
+			rep.add(Violation::new(
+				"C08",
+				"error_taken_for_success",
+				&cause,
+				&phase,
+				String::new(),
+			));
 		}
 		// no later request of that attempt
-		let reply_seq = w.trace.iter().find(|e| matches!(&e.ev, Ev::NetReply { tx, .. } if *tx == p0.tx)).map(|e| e.seq).unwrap_or(0);
-		let later = w.trace.iter().filter(|e| e.seq > reply_seq && e.seq < end_seq && matches!(&e.ev, Ev::NetSend { .. })).count();
+		let reply_seq = w
+			.trace
+			.iter()
+			.find(|e| matches!(&e.ev, Ev::NetReply { tx, .. } if *tx == p0.tx))
+			.map(|e| e.seq)
+			.unwrap_or(0);
+		let later = w
+			.trace
+			.iter()
+			.filter(|e| e.seq > reply_seq && e.seq < end_seq && matches!(&e.ev, Ev::NetSend { .. }))
+			.count();
 		if later > 0 {
-			rep.add(Violation::new("C08", "attempt_continued_after_unrecoverable", &cause, &phase, format!("{} further requests in the same attempt", later)));
+			rep.add(Violation::new(
+				"C08",
+				"attempt_continued_after_unrecoverable",
+				&cause,
+				&phase,
+				format!("{} further requests in the same attempt", later),
+			));
 		}
 	}
 }
